@@ -70,6 +70,10 @@ def tasks(tier, seed):
                 for s in (0, 1):
                     dd = dict(d, rm=rm)
                     ts.append(dict(kind='ctx', name='ctx/%s/k%d/s%d' % (G.name_of(dd), k, s), desc=dd, k=k, s=s, rng='random' if s else 'numpy'))
+    # operations that reach the stochastic rounder through the MPFR engine: the round-to-odd intermediate requested by the
+    # context's round_params must keep every digit the draw is compared with (harness/c02.py glue lemma, stochastic arm)
+    from . import c02
+    ts += [t for t in c02.tasks(tier, seed) if t['name'].startswith('glue-stoch/')]
     return ts
 
 
@@ -82,8 +86,9 @@ def describe(tier):
     R = '/repo/fpy2/number/'
     return dict(
         functions=['RealFloat.round', 'RealFloat.round_at', 'RealFloat._round_at_stochastic', 'RealFloat._generate_randbits', 'RealFloat._round_at', 'RealFloat.split',
-                   '*Context.round with num_randbits=k (MPFloat, MPSFloat, MPBFloat, IEEE, EFloat, MPFixed, MPBFixed, Fixed, SMFixed)'],
-        files=[R + 'number/reals.py'] + [R + 'context/' + f for f in ('mp_float.py', 'mps_float.py', 'mpb_float.py', 'efloat.py', 'ieee754.py', 'mp_fixed.py', 'mpb_fixed.py', 'fixed.py', 'sm_fixed.py')],
+                   '*Context.round with num_randbits=k (MPFloat, MPSFloat, MPBFloat, IEEE, EFloat, MPFixed, MPBFixed, Fixed, SMFixed)',
+                   '*Context.round_params with num_randbits=k + gmputils.mpfr_call / _round_odd (operations reaching the stochastic rounder through the MPFR engine; MPFR replaced by its contract stub, see C02)'],
+        files=[R + 'number/reals.py', R + 'gmputils.py'] + [R + 'context/' + f for f in ('mp_float.py', 'mps_float.py', 'mpb_float.py', 'efloat.py', 'ieee754.py', 'mp_fixed.py', 'mpb_fixed.py', 'fixed.py', 'sm_fixed.py')],
         bounds=dict(significand_bits=b['CW'], exponent_abs=b['E'], random_bits=b['ks'] + ['None (all lost bits)'], engine_width=b['W'], oracle_width=b['WO']),
         outside=['k above the stated values', 'operands wider than the bounds', 'the quality of the generator itself', 'ExpContext (no stochastic rounding implemented)'],
         stubs=['rng: object whose getrandbits(k)/integers(0, 2**k) returns an arbitrary r with 0 <= r < 2**k (one fresh symbolic variable), calls counted',
@@ -96,6 +101,9 @@ def describe(tier):
 
 
 def run_task(task):
+    if task['kind'] == 'glue':
+        from . import c02
+        return c02.run_task(task)
     import z3
     import random as pyrandom
     from pysym.core import explore, SymInt, bv
